@@ -179,7 +179,7 @@ def gen(quick):
                 continue
             seqs = "".join(seq)
             for base in (0.0, 0.3, 1.0):
-                lens = slv if ns <= 2 or not quick else slv[::2]
+                lens = slv if ns <= 2 else slv[::2]  # three slivers: every second length (keeps 1e-12, 9.9e-9 / 1e-8, ...)
                 for slens in itertools.product(lens, repeat=ns):
                     for thr in (None, 1e-8):
                         yield (seqs, slens, base, thr)
